@@ -27,14 +27,14 @@ ASSUMPTIONS = [
 ANCHORS = ["dagrt.codegen.fortran:CodeGenerator.__call__", "dagrt.codegen.fortran:CodeGenerator.lower_inst",
            "dagrt.codegen.fortran:CodeGenerator.emit_inst_Assign", "dagrt.codegen.transform:expand_IfThenElse",
            "dagrt.codegen.expressions:FortranExpressionMapper.map_constant"]
-MIN_NONTRIVIAL = {"quick": 30, "thorough": 800}
+MIN_NONTRIVIAL = {"quick": 120, "thorough": 1800}
 REQUIRED_COUNTERS = {"quick": ["programs_compiled", "run_calls_compared", "values_compared"],
                      "thorough": ["programs_compiled", "run_calls_compared", "values_compared"]}
 SHARD_TIMEOUT = {"quick": 900, "thorough": 3400}
 
 
 def plan(tier, seed):
-    per = 4 if tier == "quick" else 100
+    per = 16 if tier == "quick" else 220
     return [{"seed": f"C03:{seed}:{k}", "count": per} for k in range(16)]
 
 
@@ -42,7 +42,8 @@ def check_script(script, rec):
     wit = {"script": script}
     try:
         with case_alarm(180):
-            obs = ftn.execute(script)
+            # leaks and shutdown's 'leaked reference' lines are C12's business
+            obs = ftn.execute(script, env={"ASAN_OPTIONS": "detect_leaks=0:halt_on_error=1:abort_on_error=0:exitcode=23"})
     except CaseTimeout:
         rec.timeout()
         return None
@@ -61,12 +62,16 @@ def check_script(script, rec):
     if obs.rc is None:
         rec.timeout()
         return None
-    err = obs.stderr.strip()
+    err = "\n".join(ln for ln in obs.stderr.splitlines()
+                    if "leaked reference" not in ln and "remaining refcount" not in ln).strip()
     if obs.rc != 0 or not obs.done or err:
         kind = ("sanitizer-report" if "Sanitizer" in err or "runtime error" in err else
                 "fortran-runtime-error" if "Fortran runtime error" in err else
                 "stderr-output" if err else "abnormal-exit")
-        rec.violation(f"fortran-run-{kind}", f"rc={obs.rc} done={obs.done} stderr: {err[-1200:]}", wit)
+        mech = f"fortran-run-{kind}"
+        if script.get("subscripts_elementwise_abs_result") and "bound" in err:
+            mech = "elementwise-abs-of-array-result-is-one-based"
+        rec.violation(mech, f"rc={obs.rc} done={obs.done} stderr: {err[-1200:]}", wit)
         return False
     if len(obs.steps) != len(obs.ref):
         rec.violation("run-call-count-differs", f"{len(obs.steps)} dumps for {len(obs.ref)} steps", wit)
@@ -77,7 +82,10 @@ def check_script(script, rec):
         rec.count("interpreter_steps_" + r["outcome"])
     d = ftn.compare_with_interpreter(obs.steps, obs.ref, obs.dag, script)
     if d is not None:
-        rec.violation(f"fortran-differs-from-interpreter:{d[0]}", d[1], wit)
+        mech = f"fortran-differs-from-interpreter:{d[0]}"
+        if script.get("subscripts_elementwise_abs_result") and d[0] in ("persistent-value", "returned-state"):
+            mech = "elementwise-abs-of-array-result-is-one-based"
+        rec.violation(mech, d[1], wit)
         return False
     return True
 
